@@ -10,6 +10,7 @@ import os
 import time
 
 from vlib import c14_pass_corpus as CORP
+from vlib.common import COQ
 
 WORKERS = 3
 
@@ -46,7 +47,7 @@ def _jobs(ctx, entries):
                 if lvl == "O3" else ["O3", lvl]
         jobs.append({"entry": e, "tier": ctx.tier, "seed": ctx.seed, "levels": levels, "skip_sample": sample,
                      "want_snaps": True, "roundtrip_budget": 60 if ctx.tier == "quick" else 10 ** 9,
-                     "n_inputs": 10 if ctx.tier == "quick" else 14})
+                     "n_inputs": 10 if ctx.tier == "quick" else 14, "want_live": True, "live_cap": 1 if ctx.tier == "quick" else 8})
     return jobs
 
 
@@ -69,7 +70,12 @@ def stage1(ctx):
     latent = []
     for r in results:
         e = by_name[r["name"]]
-        snaps[r["name"]] = {"entry": e, "snaps": r["snaps"], "inputs": r.get("inputs", []), "ref_runtime": r.get("ref_runtime")}
+        suspects = set()
+        for f in r["findings"]:
+            if f["kind"] == "behaviour":
+                suspects |= set(f.get("localised_to") or []) or {"RemoveUnusedVariablesPass", "AssignElimination", "SingleUseExpansion", "DFTPass"}
+        snaps[r["name"]] = {"entry": e, "snaps": r["snaps"], "inputs": r.get("inputs", []), "ref_runtime": r.get("ref_runtime"),
+                            "live": r.get("live", []), "suspects": suspects}
         s = r["stats"]
         for k in ("calls", "compiles", "skip_compiles", "skip_failed", "skip_equal_ref", "invocations", "changed", "wf_checks", "ref_ok_calls"):
             tot[k] += s.get(k, 0)
@@ -167,13 +173,31 @@ def part_passes(ctx):
     os.environ.setdefault("PYTHONWARNINGS", "ignore")
     n1, snaps = stage1(ctx)
     n1 += stage_hand(ctx, snaps)
-    n2 = 0
-    try:
-        from vlib import c14_pass_sem as SEM
-    except ImportError:
-        SEM = None
-    if SEM is not None:
-        n2 = SEM.stage2(ctx, snaps)
+    from vlib import c14_pass_sem as SEM
+    from vlib import c14_pass_val as VAL
+    t0 = time.time()
+    built = SEM.build_proofs(ctx)
+    n3, rejected = 0, []
+    vstats = {}
+    if built[1] and all((COQ / f[:-2]).with_suffix(".vo").exists() for f in SEM.VAL_STATIC):
+        # proved validators on the real pass invocations and on the real liveness tables
+        n3, rejected = VAL.validators_part(ctx, snaps, vstats)
+        n3 += VAL.liveness_part(ctx, [o for pr in snaps.values() for o in pr.get("live", [])], vstats)
+    ctx.corr["pass_validators"] = vstats
+    ctx.log(f"pass validators: {vstats} in {time.time() - t0:.0f}s")
+    # rejected pairs always go to the vrun differential; pairs outside a validator's domain only in the thorough tier (in the
+    # quick tier they are sampled like every other pass invocation)
+    n2 = SEM.stage2(ctx, snaps, built=built, forced=[r for r in rejected if r["verdict"] == "rejected" or ctx.tier == "thorough"])
+    # a pair a proved validator rejected (inside its domain) for which the differential found no failing input
+    for r in rejected:
+        if r["verdict"] == "rejected" and (r["prog"], r["idx"], r["pass"]) not in SEM.TV_MISMATCHES:
+            ctx.violation("correspondence-broken",
+                          f"proved validator for {r['pass']} ({VAL.THEOREM[r['validator']]}) rejects the pass output in function {r['fn']} of "
+                          f"{r['prog']}; the vrun differential found no failing input",
+                          {"program": r["prog"], "config": f"venom-{r['level']}-cancun", "pass": r["pass"], "function": r["fn"],
+                           "pass_invocation_index": r["idx"], "ir_before": r["before"][:6000], "ir_after": r["after"][:6000]},
+                          key=f"C14:validator-reject:{r['pass']}:{r['prog']}")
+    n2 += n3
     ctx.trusted += ["pyrevm (EVM used to observe compiled programs)",
                     "legacy pipeline at -O none as behavioural reference for the Venom pipelines (differential, not proof)"]
     return n1 + n2
